@@ -119,8 +119,8 @@ inline bool plan_effect(Model const& M, ModelTraits const& T, Op const& op, Effe
 	i64 const fresh_or_zero = T.trivial ? static_cast<i64>(0xA5A5A5A5A5A5A5A5ull) : 0;
 	int const D             = op.da;
 	e.variant               = op_name(op.kind);
-	if(D == 0 || op.db == 0) {  // zero-dimensional arrays: one element, no extents, no views; a small operation set
-		if(D != 0 || T.dmin != 0) return false;
+	if(D == 0) {  // zero-dimensional arrays: one element, no extents, no views; a small operation set
+		if(T.dmin != 0) return false;
 		switch(op.kind) {
 		case O_CTOR_DEFAULT: case O_CTOR_EXT: case O_CTOR_EXT_ELEM: case O_CTOR_COPY: case O_CTOR_MOVE: case O_DESTROY:
 		case O_ASSIGN_COPY: case O_ASSIGN_MOVE: case O_ASSIGN_SELF: case O_ELEM_WRITE: case O_READ: break;
@@ -178,6 +178,7 @@ inline bool plan_effect(Model const& M, ModelTraits const& T, Op const& op, Effe
 			if(D == 0) {  // a 0-D array has no empty state: the element is moved, the source keeps one (moved-from) element
 				MArr& bz = tgt(1, D, op.b);
 				if(!T.trivial) bz.v.assign(1, -7777);
+				e.unspecified[1] = true;  // the element is moved from: valid but unspecified
 				e.elems = 1;
 				break;
 			}
@@ -237,8 +238,8 @@ inline bool plan_effect(Model const& M, ModelTraits const& T, Op const& op, Effe
 			if(op.nx != D) return false;
 			for(int i = 0; i < D; ++i)
 				if(op.x[i] < 1 || op.x[i] > 4) return false;
-			int const form = (op.var >> 1) & 3;  // 0 array, 1 whole view, 2 transposed view
-			if(form > 2 || (form == 2 && D < 2)) return false;
+			int const form = (op.var >> 1) & 7;  // 0 const array, 1 whole view, 2 transposed view, 3 non-const lvalue array, 4 rvalue array
+			if(form > 4 || (form == 2 && D < 2)) return false;
 			MArr src = make_empty(D, 0);
 			set_dims(src, D, op.x);
 			src.v.resize(static_cast<std::size_t>(src.count()));
@@ -250,6 +251,9 @@ inline bool plan_effect(Model const& M, ModelTraits const& T, Op const& op, Effe
 				apply_step(v, s);
 				var("transposed-view");
 			} else if(form == 1) var("view");
+			else if(form == 3) var("lvalue-array");
+			else if(form == 4) var("rvalue-array");
+			if(form >= 3 && (op.var & 1)) return false;  // no allocator-extended form for these
 			set_dims(a, D, v.n);
 			a.v = gather(src, v);
 			if(op.var & 1) {
@@ -294,6 +298,7 @@ inline bool plan_effect(Model const& M, ModelTraits const& T, Op const& op, Effe
 				a.v      = b0.v;
 				MArr& b  = tgt(1, D, op.b);
 				if(!T.trivial) b.v.assign(b.v.size(), -7777);
+				e.unspecified[1]  = true;  // elements are moved from one by one: valid but unspecified
 				e.expect_no_alloc = true;
 				return true;
 			}
@@ -390,8 +395,7 @@ inline bool plan_effect(Model const& M, ModelTraits const& T, Op const& op, Effe
 		e.elems = v.count();
 		if(same && a0.count() > 0) e.expect_no_alloc = e.expect_base_unchanged = true;
 		else if(a0.count() == v.count() && a0.count() > 0 && form == 0) {
-			e.expect_no_alloc = e.expect_base_unchanged = true;  // documented reshape path for arrays of another element type
-			e.probe_id = P_ASSIGN_RESHAPE_PATH;
+			e.probe_id = P_ASSIGN_RESHAPE_PATH;  // reshape path: reached and value-checked; whether it reallocates is not stated by any property
 		}
 		return true;
 	}
